@@ -214,6 +214,9 @@ CUSTOM_ASYNC_MARKINGS = ["custom-async-attr"]
 OBSERVED = ["observed-call-method"]
 
 
+CURRENT: dict = {}
+
+
 class Holder:
     def __init__(self, f):
         self.f = f
@@ -240,7 +243,37 @@ def env_class(name):
                 return False
             return super().is_safe_callable(obj)
 
-    return CustomEnv
+    if name == "custom":
+        return CustomEnv
+    # the override is INHERITED: from an intermediate class, or from a mix-in listed before the sandbox class
+    if name == "custom-inherited":
+        class Tenant(CustomEnv):
+            def is_safe_attribute(self, obj, attr, value):   # overrides another hook only
+                return super().is_safe_attribute(obj, attr, value)
+
+        return Tenant
+
+    class Policy:
+        registry: list = []
+
+        def is_safe_callable(self, obj):
+            if getattr(obj, "blocked", False) or getattr(obj, "__name__", "") == "danger":
+                return False
+            if any(obj == r for r in self.registry):
+                return False
+            return super().is_safe_callable(obj)
+
+    if name == "custom-mixin":
+        class Mixed(Policy, SandboxedEnvironment):
+            pass
+
+        return Mixed
+    if name == "custom-mixin-immutable":
+        class MixedImmutable(Policy, ImmutableSandboxedEnvironment):
+            pass
+
+        return MixedImmutable
+    raise AssertionError(name)
 
 
 def make_env(cls_name, asy, autoescape=False, extra_templates=None):
@@ -253,8 +286,9 @@ def make_env(cls_name, asy, autoescape=False, extra_templates=None):
     )
     env.install_null_translations()
     env.globals["ident"] = lambda *a, **k: "ID"
-    if cls_name == "custom":
+    if cls_name.startswith("custom"):
         env.registry = []
+    env.filters["c18pick"] = lambda key: CURRENT.get("f") or (lambda *a, **k: "ID")
     return env
 
 
@@ -302,7 +336,12 @@ REFS = [
                               {"inc": "{% macro m() %}" + S("f") + "{% endmacro %}"})),
     ("filter-block", lambda S: "{% filter upper %}" + S("f") + "{% endfilter %}"),
     ("autoescape-block", lambda S: "{% autoescape true %}" + S("f") + "{% endautoescape %}"),
+    # the callee expression contains no name at all: a plain filter maps a literal to the callable
+    ("const-filter", lambda S: S('("k"|c18pick)')),
+    ("const-filter-set", lambda S: '{% set g = "k"|c18pick %}' + S("g")),
+    ("const-filter-cond", lambda S: S('("k"|c18pick if true else none)')),
 ]
+CONST_REFS = ("const-filter", "const-filter-set", "const-filter-cond")
 
 # slot: (id, fn(call_expr) -> text);  call_expr is callee + args
 SLOTS = [
@@ -362,8 +401,9 @@ def make_data(f):
 def run_case(cls_name, asy, src, extra, marking, compiled=None, autoescape=False):
     env = make_env(cls_name, asy, autoescape, extra)
     f = make_callable(marking)
-    if cls_name == "custom" and marking in ("custom-registry", "custom-method-registry"):
+    if cls_name.startswith("custom") and marking in ("custom-registry", "custom-method-registry"):
         env.registry = [f]
+    CURRENT["f"] = f   # what the plain filter c18pick hands out for a CONSTANT key (also while compiling)
     del CALLS[:]
     if compiled is None:
         compiled = sbx.compile_src(env, src)
@@ -396,6 +436,9 @@ def shard(arg):
         markings += ASYNC_MARKINGS
     if cls_name == "custom":
         markings += CUSTOM_MARKINGS + (CUSTOM_ASYNC_MARKINGS if asy else [])
+    elif cls_name.startswith("custom"):
+        # same override, inherited: the marks that only the override rejects, and two standard ones
+        markings = ["unsafe-func", "alters-method"] + CUSTOM_MARKINGS + (CUSTOM_ASYNC_MARKINGS if asy else [])
     for rid in ref_ids:
         for sid, sfn in SLOTS:
             shapes = ARG_SHAPES if (shapes_everywhere or sid == "out") else ARG_SHAPES[:1]
@@ -423,6 +466,8 @@ def shard(arg):
                                       f"print(c18.make_env({cls_name!r}, {asy!r}).compile({src!r}, raw=True))\n",
                         })
                 # liveness: an unmarked twin is really called on this route
+                if rid in CONST_REFS:
+                    comp = None     # compile again for every marking: the constant part may be evaluated while compiling
                 res, calls = run_case(cls_name, asy, src, extra, "safe", comp, autoescape)
                 if not calls:
                     raise core.HarnessError(f"route {rid}/{sid}{args} [{cls_name} async={asy}] never calls a safe callable: "
@@ -774,9 +819,94 @@ def macro_shard(arg):
     return p
 
 
+
+# ------------------------------------------------------------------ methods of literals under a restrictive override
+#
+# A call whose callee and arguments are all compile-time constants ('a b'.split(), {'a': 1}.get('a')) involves no
+# template variable at all, yet it is a call made by the template: an is_safe_callable override that rejects the
+# bound method must be consulted, and must win, wherever the call stands - in particular it must not be evaluated
+# while compiling.
+
+LITERAL_CALLS = [("'a b'.split", "()"), ("'a b'.split", "(' ')"), ("'x'.upper", "()"), ("{'a': 1}.get", "('a')"),
+                 ("[1, 2].count", "(1)"), ("(1, 2).index", "(2)"), ("(5).bit_length", "()"),
+                 ("('a'|upper).lower", "()"), ("('a' ~ 'b').title", "()"), ("[1, 2][0].bit_length", "()"),
+                 ("{'a': 'x'}.a.upper", "()"), ("{'a': 'x'}['a'].upper", "()")]
+LITERAL_OVERRIDES = ["deny-all", "deny-builtin-methods", "allow-list"]
+CONSULTED: list = []
+
+
+def literal_env(override, asy):
+    import types
+
+    from jinja2.sandbox import SandboxedEnvironment
+
+    class Env(SandboxedEnvironment):
+        allowed: list = []
+
+        def is_safe_callable(self, obj):
+            CONSULTED.append(1)
+            if override == "none":
+                return super().is_safe_callable(obj)
+            if override == "deny-all":
+                return False
+            if override == "deny-builtin-methods":
+                return not isinstance(obj, types.BuiltinMethodType) and super().is_safe_callable(obj)
+            if override == "allow-list":
+                return any(obj is a for a in self.allowed)
+            raise AssertionError(override)
+
+    env = Env(enable_async=asy, cache_size=0, extensions=["jinja2.ext.do", "jinja2.ext.i18n"])
+    env.install_null_translations()
+    env.globals["ident"] = ident = lambda *a, **k: "ID"
+    env.allowed = [ident]
+    return env
+
+
+def literal_case(override, asy, src):
+    env = literal_env(override, asy)
+    del CONSULTED[:]
+    comp = sbx.compile_src(env, src)
+    res = sbx.render_code(env, comp, {})
+    return res, len(CONSULTED)
+
+
+def literal_shard(arg):
+    asy, override = arg
+    core.import_all_jinja()
+    p = core.Part()
+    for callee, args in LITERAL_CALLS:
+        for sid, sfn in SLOTS:
+            src = sfn(callee + args)
+            res0, n0 = literal_case("none", asy, src)
+            if res0[0] == "exc" and res0[1] in ("TemplateSyntaxError", "TemplateAssertionError"):
+                p.count("combinations_not_expressible")
+                continue
+            if not n0:
+                # the template made a call (it is there in the source) and the sandbox was never asked about it
+                p.violation(f"C18/literal/not-consulted/{sid}", {
+                    "msg": f"[async={asy}] {callee}{args} in slot {sid}: is_safe_callable was never consulted for the call "
+                           f"in template {src!r} (outcome {res0!r})",
+                    "script": "from checks import c18\n"
+                              f"print(c18.literal_case('none', {asy!r}, {src!r}), '<- (outcome, number of is_safe_callable consultations)')\n"})
+                continue
+            p.evals += 1
+            res, n = literal_case(override, asy, src)
+            bad = None
+            if not (res[0] == "exc" and res[1] == "SecurityError"):
+                bad = ("no-security-error", f"outcome {res!r}, not SecurityError (is_safe_callable consulted {n} time(s))")
+            if bad:
+                p.violation(f"C18/literal/{bad[0]}/{override}/{sid}", {
+                    "msg": f"[override {override} async={asy}] {callee}{args} in slot {sid}: {bad[1]}; template {src!r}",
+                    "script": "from checks import c18\n"
+                              f"print(c18.literal_case({override!r}, {asy!r}, {src!r}))\n"
+                              "# plain: a SandboxedEnvironment subclass whose is_safe_callable rejects the bound method\n"})
+            p.sig(("literal", override, callee, sid, res[1] if res[0] == "exc" else "ok"))
+    return p
+
+
 def dispatch(arg):
     kind, payload = arg
-    return {"product": shard, "seq": seq_shard, "macro": macro_shard}[kind](payload)
+    return {"product": shard, "seq": seq_shard, "macro": macro_shard, "literal": literal_shard}[kind](payload)
 
 
 def chunks(xs, n):
@@ -798,17 +928,23 @@ def run(ctx: core.Ctx):
     for cls_name in ("sandboxed", "custom") if ctx.quick else ("sandboxed", "immutable", "custom"):
         for asy in (False, True):
             plan.append((cls_name, asy, False, ctx.quick is False))
+    for cls_name in ("custom-inherited", "custom-mixin", "custom-mixin-immutable"):
+        for asy in (False, True):
+            plan.append((cls_name, asy, False, False))
     if not ctx.quick:
         plan += [("sandboxed", False, True, True), ("sandboxed", True, True, True), ("custom", True, True, True)]
     shards = [("product", (c, a, esc, ids, everywhere)) for (c, a, esc, everywhere) in plan for ids in chunks(ref_ids, 3)]
     shards += [("seq", (c, a)) for c in ("sandboxed", "immutable", "custom") for a in (False, True)]
     shards += [("macro", (a, esc)) for a in (False, True) for esc in (False, True)]
+    shards += [("literal", (a, o)) for a in (False, True) for o in LITERAL_OVERRIDES]
     ctx.pmap(dispatch, shards)
     ctx.cov["bounds"] = {
         "environments": [list(x[:3]) for x in plan], "reference_forms": len(REFS), "slots": len(SLOTS),
         "arg_shapes": len(ARG_SHAPES), "arg_shapes_in_every_slot": not ctx.quick,
         "sequence_forms": len(SEQ_FORMS) + 4, "sequence_markings": len(SEQ_KINDS) + len(SEQ_KINDS_ASYNC) + len(SEQ_KINDS_CUSTOM),
         "macro_call_forms": len(MACRO_FORMS), "macro_overrides": MACRO_OVERRIDES,
+        "literal_callees": [c for c, _a in LITERAL_CALLS], "literal_overrides": LITERAL_OVERRIDES,
+        "override_inherited_from": ["intermediate class", "mix-in before SandboxedEnvironment", "mix-in before ImmutableSandboxedEnvironment"],
         "markings": {"standard": len(STD_MARKINGS), "async": len(ASYNC_MARKINGS),
                      "custom": len(CUSTOM_MARKINGS) + len(CUSTOM_ASYNC_MARKINGS)},
     }
